@@ -42,6 +42,29 @@ class Oracle:
             self.cache[b] = (r, msg)
             return self.cache[b]
 
+def _stack8m():
+    import resource
+    resource.setrlimit(resource.RLIMIT_STACK, (8 << 20, 8 << 20))
+
+def rle_hex(data):
+    """replay record of a huge file: 'rle:' + units 'hex*count' joined by ',' (a unit is 1-4 bytes repeated count times)"""
+    out = []; i = 0; n = len(data)
+    while i < n:
+        best_u, best_c = 1, 1
+        for u in (1, 2, 3, 4):
+            unit = data[i:i + u]
+            if len(unit) < u: break
+            c = 1
+            while data[i + c * u:i + (c + 1) * u] == unit: c += 1
+            if c * u > best_c * best_u: best_u, best_c = u, c
+        out.append('%s*%d' % (data[i:i + best_u].hex(), best_c)); i += best_u * best_c
+        if len(out) > 20000: return ''
+    return 'rle:' + ','.join(out)
+
+def unrle(h):
+    if not h.startswith('rle:'): return bytes.fromhex(h)
+    return b''.join(bytes.fromhex(x.split('*')[0]) * int(x.split('*')[1]) for x in h[4:].split(','))
+
 def clean_utf8(b):
     try: s = b.decode('utf-8')
     except UnicodeDecodeError: return False
@@ -90,7 +113,7 @@ def run(bdir, tier, known_ids, deadline, only_utf8=False):
         if nfiles > 1: why += ':several-files'
         c = cls.setdefault(why, {'key': why + '|', 'count': 0, 'is_known': 0}); c['count'] += 1
         if c['count'] <= 2:
-            res['violations'].append({'sub': 'files' if nfiles > 1 else 'file', 'why': why, 'known': '', 'cfg': '', 'msg': msg[:190], 'text': repr(data[:120])[2:-1], 'hex': data.hex() if len(data) <= 400000 else ''})
+            res['violations'].append({'sub': 'files' if nfiles > 1 else 'file', 'why': why, 'known': '', 'cfg': '', 'msg': msg[:190], 'text': repr(data[:120])[2:-1], 'hex': data.hex() if len(data) <= 400000 else rle_hex(data)})
     L, longs = line_menu(thorough)
     terms = [b'\n', b'\r\n']
     files = [b'', b'\x00\n', b'a\x00b@c.com\n', b'\n', b'\r\n', b'\r', b'#only comment', b'#\n#\n']
@@ -121,6 +144,12 @@ def run(bdir, tier, known_ids, deadline, only_utf8=False):
         for lead in (b'a', 'ж'.encode(), '中'.encode()):
             body = lead * ((n - 9) // len(lead)) + b'a' * ((n - 9) % len(lead)) + b'@test.com'
             files.append(body + b'\n' + b'ok@test.com\n'); files.append(b'ok@test.com\r\n' + body)
+    # lines of several MiB, beyond anything a stack frame holds (the process runs with the usual 8 MiB stack limit, pinned below): an echo buffer
+    # sized by the line - a C99 variable-length array, alloca() - has no failure path.  Control and invalid bytes are echoed as 4 bytes each.
+    if not only_utf8:
+        big = [b'\x01' * (3 << 20) + b'@test.com', b'a' * (12 << 20) + b'@test.com']
+        if thorough: big += [b'\xff' * (3 << 20), 'ж'.encode() * (8 << 20) + b'@test.com', b'a' * (32 << 20) + b'@test.com']
+        for body in big: files.append(b'ok@test.com\n' + body + b'\n' + b'ok@test.com\n')
     # a 2-, 3- or 4-byte character whose lead byte sits 0..w+1 bytes before each multiple of a power of two, on lines longer than that
     # (a tool that reads, sanitizes or prints in fixed-size pieces cuts a character there); the line must still be echoed byte for byte
     for B in (256, 512, 1024, 2048, 4096, 8192):
@@ -196,9 +225,9 @@ def run(bdir, tier, known_ids, deadline, only_utf8=False):
             for q in paths:
                 if os.path.exists(q): os.unlink(q)
         try:
-            p = subprocess.run([exe] + paths, env=env, stdout=subprocess.PIPE, stderr=subprocess.PIPE, timeout=60)
+            p = subprocess.run([exe] + paths, env=env, stdout=subprocess.PIPE, stderr=subprocess.PIPE, timeout=180 if sum(len(d) for d in datas if d) > (2 << 20) else 60, preexec_fn=_stack8m)
         except subprocess.TimeoutExpired:
-            viol('cli:timeout', 'no termination within 60 s', data, len(datas)); cleanup(); return
+            viol('cli:timeout', 'no termination within the time limit (60 s; 180 s for files over 2 MiB)', data, len(datas)); cleanup(); return
         cleanup()
         done[0] += 1
         if p.returncode != 0:
@@ -250,7 +279,7 @@ def run(bdir, tier, known_ids, deadline, only_utf8=False):
 def replay(bdir, path):
     import checks
     c = checks.read_case(path)
-    data = bytes.fromhex(c.get('hex', ''))
+    data = unrle(c.get('hex', ''))
     exe, plain = build(bdir)
     fs = []
     for n, d in enumerate(data.split(b'\x1e') if c.get('sub') == 'files' else [data]):
@@ -258,7 +287,7 @@ def replay(bdir, path):
         if d != b'\x1f': open(f, 'wb').write(d)
         elif os.path.exists(f): os.unlink(f)
     env = dict(os.environ); env['ASAN_OPTIONS'] = 'detect_leaks=1:exitcode=77'
-    p = subprocess.run([exe] + fs, env=env)
+    p = subprocess.run([exe] + fs, env=env, preexec_fn=_stack8m)
     print('exit status', p.returncode)
     return 1 if p.returncode != 0 else 0
 
